@@ -58,7 +58,7 @@ def tla_json(g, gid=None, dflt=()):
         'id': gid, 'nnt': nnt, 'nt': nt, 'root': ntid[g.root], 'rules': rules, 'used': [1] * len(rules),
         'tprec': [g.tprec.get(t, 0) for t in g.ts], 'tassoc': [g.tassoc.get(t, 0) for t in g.ts],
         'tbytes': [ord(t) for t in g.ts], 'tnames': tn, 'ntnames': names_nt, 'ruletext': texts,
-        'lex': 'chars', 'lexterms': [], 'dflt': sorted(dflt), 'deflimits': True, 'obsT': True, 'obsC': True, 'alpha': [ord(t) for t in g.ts],
+        'lex': 'chars', 'lexterms': [], 'dflt': sorted(dflt), 'deflimits': True, 'lexobs': False, 'obsT': True, 'obsC': True, 'alpha': [ord(t) for t in g.ts],
         'uterms': list(range(nt)),
     }
 
@@ -111,4 +111,45 @@ def lex_tla_json(gid, terms):
     return {'id': gid, 'nnt': 1, 'nt': nt, 'root': 0, 'rules': rules, 'used': [1] * len(rules),
             'tprec': [0] * nt, 'tassoc': [0] * nt, 'tbytes': [0] * nt, 'tnames': tn, 'ntnames': ['N0', '##'], 'ruletext': texts,
             'lex': 'ref', 'lexterms': [{'kind': t[0], 'data': ([t[1]] if t[0] == 'C' else list(t[1]))} for t in terms],
-            'dflt': [], 'deflimits': True, 'obsT': True, 'obsC': True, 'alpha': [], 'uterms': list(range(nt))}
+            'dflt': [], 'deflimits': True, 'lexobs': False, 'obsT': True, 'obsC': True, 'alpha': [], 'uterms': list(range(nt))}
+
+
+# ---------------------------------------------------------------- custom lexer (C18)
+def clex_tu(g, gid):
+    """g: gram.Grammar whose terms are abstract (named by single characters); all terms are custom_terms, the lexer is
+    vh::byte_lexer<number of terms>"""
+    ntid = {n: i for i, n in enumerate(g.nts)}
+    tid = {t: i for i, t in enumerate(g.ts)}
+    o = ['#include "rt.hpp"', 'using namespace ctpg;', 'using vh::Node;', 'namespace G {']
+    for i, n in enumerate(g.nts):
+        o.append('nterm<Node> n%d("N%d");' % (i, i))
+    for i, t in enumerate(g.ts):
+        o.append('custom_term t%d("T%d", vh::TermF{%d}, %d, associativity(%d));' % (i, i, i, g.tprec.get(t, 0), g.tassoc.get(t, 0)))
+    rl = []
+    for ri, (l, rhs, prec) in enumerate(g.rules):
+        args = ', '.join('n%d' % ntid[x] if x in ntid else ('error' if x == 'error' else 't%d' % tid[x]) for x in rhs)
+        r = 'n%d(%s)' % (ntid[l], args)
+        if prec != 0:
+            r = '(%s[%d])' % (r, prec)
+        rl.append('        %s >= vh::RuleF{%d}' % (r, ri))
+    o.append('auto make() { return new parser(n%d,' % ntid[g.root])
+    o.append('    terms(%s),' % ', '.join('t%d' % i for i in range(len(g.ts))))
+    o.append('    nterms(%s),' % ', '.join('n%d' % i for i in range(len(g.nts))))
+    o.append('    rules(\n%s\n    ), use_lexer<vh::byte_lexer<%d>>{}); }' % (',\n'.join(rl), len(g.ts)))
+    o.append('}')
+    o.append('int main(int argc, char** argv) { return vh::gen_main([] { return G::make(); }, "%s", argc, argv); }' % gid)
+    return '\n'.join(o) + '\n'
+
+
+def clex_tla_json(g, gid):
+    j = tla_json(g, gid)
+    nt = len(g.ts)
+    j['tnames'] = ['T%d' % i for i in range(nt)] + ['<eof>', '<error_recovery_token>']
+    names_nt = j['ntnames']
+
+    def symname(c):
+        return j['tnames'][c - TB] if c >= TB else names_nt[c]
+    j['ruletext'] = [names_nt[r['l']] + ' <- ' + ' '.join(symname(c) for c in r['r']) for r in j['rules']] + ['## <- ' + names_nt[j['root']]]
+    j['lex'] = 'byte'
+    j['lexobs'] = True
+    return j
